@@ -346,6 +346,13 @@ func (ctrler *RigoApp) deliverTxSync(req abcitypes.RequestDeliverTx) abcitypes.R
 		xerr = xerrors.ErrDeliverTx.Wrap(xerr)
 		ctrler.logger.Error("deliverTxSync", "error", xerr)
 
+		// NewTrxContext returns a nil context when it fails (undecodable bytes, unknown sender)
+		if txctx == nil {
+			return abcitypes.ResponseDeliverTx{
+				Code: xerr.Code(),
+				Log:  xerr.Error(),
+			}
+		}
 		if txctx.Tx != nil {
 			// add event
 			txctx.Events = append(txctx.Events, abcitypes.Event{
